@@ -157,7 +157,9 @@ class Verdict:
                 print(f"  violated clause={v['clause']} detail={json.dumps(v['detail'], default=str)[:400]}")
             print(f"VIOLATION property={self.prop} replay={rp}")
             rc = 1
-        with open(os.path.join(EVIDENCE, f"{self.prop}.json"), "w") as f:
+        evdir = EVIDENCE if self.prop.startswith("C") else os.path.join(VERIF, "evidence_extra")
+        os.makedirs(evdir, exist_ok=True)  # X.. ids: components specified beyond the listed properties
+        with open(os.path.join(evdir, f"{self.prop}.json"), "w") as f:
             json.dump(ev, f, indent=1, default=str)
         print(
             f"{self.prop} tier={self.tier} violations={len(self.violations)} "
